@@ -365,6 +365,18 @@ class Run:
         CBMC's all-properties mode re-solves after the first failing property, and that second round can take far
         longer than finding the failure did.  The retry can only turn 'undecided' into 'failed' (with a trace); a
         retry that finds nothing leaves the job undecided."""
+        if job.get("kind") == "refute":
+            # a bounded-time COUNTEREXAMPLE SEARCH for an obligation whose proof does not terminate here: --stop-on-fail,
+            # no VREACH twin.  A failure is a violation like any other (trace, native replay); running out of time is
+            # 'inconclusive': listed in the evidence, never counted as discharged, and it does not make the check undecided.
+            job2 = dict(job, defs=list(job.get("defs", [])) + ["-DV_NO_VREACH"], cbmc=list(job.get("cbmc", [])) + ["--stop-on-fail"], noreach=True)
+            res = self._run_job_once(job2)
+            if res["status"] == "undecided" and res["reason"].startswith("cbmc timeout"):
+                res["status"] = "inconclusive"
+            elif res["status"] == "ok" or res["reason"].startswith("cbmc produced no result (rc=0)"):
+                res["status"] = "inconclusive"      # (--stop-on-fail prints no result table: nothing to count)
+                res["reason"] = "search completed without a counterexample (not counted: no result table, no reachability twin)"
+            return res
         res = self._run_job_once(job)
         if (res["status"] == "undecided" and res["reason"].startswith("cbmc timeout") and job.get("kind", "obligation") != "canary"
                 and "--stop-on-fail" not in job.get("cbmc", []) and not job.get("no_retry") and os.environ.get("VERIF_NO_RETRY") != "1"):
@@ -696,7 +708,8 @@ class Run:
                 violations.append((f, rp, rep))
 
         # ---- evidence ------------------------------------------------------
-        real = [r for r in results if r["kind"] != "canary"]
+        inconclusive = [r for r in results if r["status"] == "inconclusive"]
+        real = [r for r in results if r["kind"] != "canary" and r["status"] != "inconclusive"]
         canaries = [r for r in results if r["kind"] == "canary"]
         P = [r for r in real if r["cls"] == "P"]
         B = [r for r in real if r["cls"] == "B"]
@@ -741,13 +754,15 @@ class Run:
                 "assumed_contracts_or_stubs": assumed,
                 "functions_without_body_treated_as_nondet_return_no_side_effect": nobody,
                 "undecided_jobs": [{"job": r["job"], "reason": r["reason"][:300]} for r in undecided],
+                "inconclusive_refutation_searches_NOT_counted": [{"job": r["job"], "reason": r["reason"][:200], "bound": r.get("bound")} for r in inconclusive],
                 "known_finding_obligations_failed_as_recorded": nknown,
                 "known_findings_seen": sorted(set(f["key"] for _, f in known_hits)),
                 "covers": [{"job": r["job"], **c} for r in real for c in r.get("covers", [])][:400],
                 "samples": samples,
                 "exhaustive": False,
             },
-            "assumptions": mod_assume + ["stub/assumed: " + a for a in assumed] + ["no body (nondet return): " + a for a in nobody],
+            "assumptions": mod_assume + ["stub/assumed: " + a for a in assumed] + ["no body (nondet return): " + a for a in nobody]
+                           + ["NOT decided, searched for a counterexample only (%s): %s" % (r["reason"][:80], r["job"]) for r in inconclusive],
             "wall_s": round(time.time() - t0, 1),
             "violations": len(violations),
         }
